@@ -1342,3 +1342,8 @@ mod tests {
         server_task.await.unwrap();
     }
 }
+
+#[cfg(kani)]
+mod verif_kani {
+    include!(concat!(env!("REPE_VERIF_KANI"), "/websocket_client.rs"));
+}
